@@ -1,5 +1,7 @@
 """Which harnesses decide which property, with their bounds per tier."""
-from .runner import Job
+import os
+
+from .runner import Job, VERIF
 
 META = {}
 _JOBS = {}
@@ -60,7 +62,7 @@ def start_jobs(tier, side, F=None):
                         defines={"VP_SIDE": side, "VP_IN_TYPE": it, "VP_F": F, "VP_EINTR": 1,
                                  "VP_MAXEV": 1, "VP_EXTRA": 1},
                         unwind=20, params={"nfd": 18, "retry": F + 2, "input_max": 3},
-                        cbmc_flags=["--slice-formula"], timeout=1800,
+                        cbmc_flags=["--slice-formula"], timeout=1200, solvers=("minisat",),
                         bounds={"faults": F, "descriptor_table": 18, "stdin_type": it}))
     return jobs
 
@@ -104,3 +106,100 @@ add("C06", lambda tier: start_jobs(tier, 0))
 add("C10", lambda tier: start_jobs(tier, 0) + start_jobs(tier, 1))
 add("C11", lambda tier: start_jobs(tier, 1))
 add("C12", lambda tier: start_jobs(tier, 0) + start_jobs(tier, 1))
+
+# ------------------------------------------------------------------ stop / destroy / wait
+STOP_ASSUME = COMMON_ASSUME + [
+    "POSIX model (see C04) with one child whose behaviour is symbolic: natural exit time (or never) "
+    "and wait status (any exit code 0..255, any signal 1..127 with or without core flag), reaction to "
+    "SIGTERM (dies / ignores / exits with any code) after any delay < 2^30 ms, SIGKILL fatal after any "
+    "delay < 2^30 ms; time passes only inside poll/waitpid and by symbolic amounts between calls",
+    "exact virtual clock (no drift): elapsed times are compared for equality with the reference",
+    "the handle is produced by the real reproc_start with default redirects and no injected fault",
+    "ties (child exits exactly when a timeout ends) are resolved as 'exit seen', in the model and in "
+    "the reference alike",
+    "timeouts range over {REPROC_DEADLINE, REPROC_INFINITE, 0, any value <= 2^30}; deadline over {none, any value <= 2^30}",
+]
+STOP_OUTSIDE = ["real-time accuracy of poll", "fork-mode children", "negative timeouts other than -1/-2",
+                "failing kill()/waitpid() during stop (covered for C06/C05 by H_history)"]
+
+
+def stop_job(mode, tier):
+    name = {0: "stop", 1: "destroy", 2: "wait"}[mode]
+    return Job("h_stop", variant=name, defines={"VP_MODE": mode, "VP_MAXEV": 1, "VP_NFD": 14,
+                                               "VP_NOFD": 14},
+               unwind=16, params={"nfd": 14, "retry": 2, "input_max": 0},
+               cbmc_flags=["--slice-formula"], timeout=900, solvers=("cadical", "kissat"),
+               bounds={"calls_after_start": "optional wait + 1", "children": 1})
+
+
+prop("C07", units=["reproc/src/reproc.c (reproc_stop, reproc_wait, reproc_terminate, reproc_kill, expiry)",
+                   "reproc/src/options.c (parse_stop_actions)", "reproc/src/process.posix.c (process_wait, "
+                   "process_terminate, process_kill)", "reproc/src/pipe.posix.c (pipe_poll)"],
+     assumptions=STOP_ASSUME, outside=STOP_OUTSIDE)
+add("C07", lambda tier: [stop_job(0, tier)])
+prop("C15", units=["reproc/src/reproc.c (reproc_destroy, reproc_stop, reproc_wait)"] + START_UNITS,
+     assumptions=STOP_ASSUME, outside=STOP_OUTSIDE)
+add("C15", lambda tier: [stop_job(1, tier)])
+
+# ------------------------------------------------------------------ call histories
+
+
+def history_job(tier, F=0):
+    K = 1 if tier == "quick" else 2
+    return Job("h_history", variant="K%d-F%d" % (K, F),
+               defines={"VP_K": K, "VP_K2": 1, "VP_F": F, "VP_MAXEV": 1, "VP_NFD": 14, "VP_NOFD": 14},
+               unwind=16, params={"nfd": 14, "retry": 3, "input_max": 0},
+               cbmc_flags=["--slice-formula"], timeout=1500, solvers=("cadical", "kissat"),
+               bounds={"calls_after_start": K, "faults_after_start": F, "children": 1})
+
+
+HIST_ASSUME = STOP_ASSUME[:2] + [
+    "H_history: one optional call before start, start valid / rejected / failing with one fault, then K "
+    "symbolic calls over {pid, wait, terminate, kill, stop, read, write, close, poll, start, strerror} with "
+    "symbolic arguments (NULL handle, NULL / size-0 buffers, invalid streams, zero sources), then destroy; "
+    "blocking forever is permitted here (timing is decided by H_stop/H_wait/H_poll); the child performs no I/O",
+]
+prop("C14", units=["reproc/src/reproc.c (all entry points)", "reproc/src/error.posix.c"] + START_UNITS[1:],
+     assumptions=HIST_ASSUME, outside=["sequences longer than K calls after start", "Windows", "fork-mode children"])
+add("C14", lambda tier: [history_job(tier, 0), history_job(tier, 1)])
+
+# ------------------------------------------------------------------ leaf units
+
+
+def unit_job(n, name, defines=None, unwind=10, **kw):
+    d = {"VP_UNIT": n, "VP_MAXEV": 1, "VP_NFD": 8, "VP_NOFD": 8}
+    d.update(defines or {})
+    return Job("h_units", variant=name, defines=d, unwind=unwind, timeout=600,
+               solvers=("cadical",), params={"str_max": 6}, **kw)
+
+
+def win_job(unit, name, narg=2, L=2, timeout=900):
+    jmax = narg * (2 * L + 3) + 2
+    elems = max(16, (jmax + 8 + 3) // 4 + 1, 2 * 2 * (L + 1) + 4)
+    return Job("h_win", variant=name, model=False, shim=False,
+               defines={"VP_WUNIT": unit, "VP_NARG": narg, "VP_L": L, "_WIN32": 1, "_WIN64": 1,
+                        "ARENA_ELEMS": elems},
+               cflags=["-I" + os.path.join(VERIF, "model", "win")],
+               unwind=4 * elems + 2, timeout=timeout, solvers=("cadical", "kissat"),
+               params={"str_max": L + 1},
+               loop_rules=[(r"^argument_", L + 2), (r"^argv_join ", narg + 2), (r"^env_", 4),
+                           (r"^vp_wcs", L + 3)],
+               bounds={"arguments": narg, "bytes_per_argument": L, "alphabet": "all 255 non-NUL byte values"})
+
+prop("C18", units=["reproc/src/process.windows.c (argument_should_escape, argument_escaped_size, "
+                   "argument_escape, argv_join, env_join_size, env_join, env_concat)"],
+     assumptions=COMMON_ASSUME + [
+         "process.windows.c is compiled on Linux with -D_WIN32 -D_WIN64 against the stand-in "
+         "/verif/model/win/windows.h; wchar_t is Linux's 32-bit type",
+         "heap buffers are served from a fixed arena whose tail carries a symbolic canary "
+         "(one arena per element type); calloc never fails in these harnesses",
+         "the splitter is an independent one-pass implementation of the documented post-2008 CRT / "
+         "CommandLineToArgvW rules applied to every argument including argv[0]",
+         "wcslen/wcscpy/wcschr are 6-line loop versions supplied by the harness",
+     ],
+     outside=["MultiByteToWideChar / CreateProcessW / GetEnvironmentStringsW (Win32 itself)",
+              "arguments longer than the stated bound", "the special parsing rule for the program name "
+              "(argv[0]) when it contains quotes"])
+add("C18", lambda tier: [win_job(1, "argv-2x2", 2, 2), win_job(2, "env", 2, 2)] +
+    ([win_job(1, "argv-1x4", 1, 4, timeout=3000), win_job(1, "argv-3x2", 3, 2, timeout=3000),
+      win_job(1, "argv-2x3", 2, 3, timeout=3000)] if tier == "thorough" else [win_job(1, "argv-1x3", 1, 3)]))
